@@ -325,7 +325,12 @@ def group_case(sh, rng):
     sigs = np.array(rows).reshape(shape + (nsamp,))
     settings = gen_settings(rng, lo, 'cycles')
     axis = ([0, 1, (0, 1)] if three else [0, None])[int(rng.integers(0, 3 if three else 2))]
-    case = {'group': True, 'sigs': sigs, 'fs': fs, 'f_range': (lo, hi), 'settings': settings, 'axis': axis}
+    refit = None
+    if rng.random() < 0.7:
+        shape2 = (shape[0], int(rng.choice([m for m in (1, 2, 3) if len(shape) < 2 or m != shape[1]]))) if rng.random() < 0.7 else (int(rng.integers(2, 4)),)
+        rows2 = [gen.gen_signal(rng, fs, lo, hi, nsamp / fs, 'bursty')[0][:nsamp] + 2e-3 * i for i in range(int(np.prod(shape2)))]
+        refit = np.array(rows2).reshape(shape2 + (nsamp,))
+    case = {'group': True, 'sigs': sigs, 'fs': fs, 'f_range': (lo, hi), 'settings': settings, 'axis': axis, 'refit': refit}
     run_group(sh, case)
 
 
@@ -358,6 +363,29 @@ def run_group(sh, case, driver='group'):
             break
     if len(bg) != sigs.shape[0] or [id(x) for x in bg] != [id(x) for x in bg.models] or bg[0] is not bg.models[0]:
         vs.append({'mechanism': 'group-container-protocol', 'message': 'len/iter/getitem do not reflect models'})
+    # history on the group object: a second fit on an array of another shape must leave no trace of the first one
+    if not vs and case.get('refit') is not None:
+        sigs2 = np.asarray(case['refit'])
+        axis2 = 0
+        _, e2 = outcome(lambda: bg.fit(np.array(sigs2, copy=True), case['fs'], tuple(case['f_range']), axis=axis2, n_jobs=1))
+        fresh = BycycleGroup(**copy.deepcopy(case['settings']))
+        _, e3 = outcome(lambda: fresh.fit(np.array(sigs2, copy=True), case['fs'], tuple(case['f_range']), axis=axis2, n_jobs=1))
+        attach.count('eval:group_refit_compared')
+        sh.note('group_refit:%s->%s' % (list(sigs.shape[:-1]), list(sigs2.shape[:-1])))
+        if (e2 is None) != (e3 is None):
+            vs.append({'mechanism': 'group-refit-differs-from-fresh-object', 'message': 'refit: %r, fresh object: %r' % (e2, e3)})
+        elif e2 is None:
+            def flat(x):
+                return [t for r in x for t in (r if isinstance(r, list) else [r])]
+            a, b = flat(bg.df_features), flat(fresh.df_features)
+            ma, mb = flat(bg.models), flat(fresh.models)
+            if len(a) != len(b) or len(ma) != len(mb) or any(poollog.tables_equal(x, y) is not None for x, y in zip(a, b)):
+                vs.append({'mechanism': 'group-refit-differs-from-fresh-object',
+                           'message': 'after a refit on shape %s: %d tables / %d models, a fresh object has %d / %d'
+                                      % (list(sigs2.shape), len(a), len(ma), len(b), len(mb))})
+            elif any(x.df_features is not y and poollog.tables_equal(x.df_features, y) is not None for x, y in zip(ma, a)) or \
+                    any(not np.array_equal(m.sig, s_) for m, s_ in zip(ma, sigs2.reshape(-1, sigs2.shape[-1]))):
+                vs.append({'mechanism': 'models-do-not-mirror-after-refit', 'message': 'models do not mirror df_features / sigs after the refit'})
     for v in vs:
         sh.violate(case, v, driver)
     sh.note('group:%dd:axis=%s' % (sigs.ndim, axis))
@@ -404,7 +432,7 @@ def run(sh):
                             'exhaustive')
                 tot += 1
     sh.exhaustive['histories_len<=%d_reduced_alphabet_both_methods' % L] = {'histories': tot}
-    for it in range(2 if sh.tier == 'quick' else 40):
+    for it in range(3 if sh.tier == 'quick' else 40):
         guarded(sh, group_case, sh, rng)
 
 
